@@ -8,6 +8,7 @@ package main
 
 import (
 	"strings"
+	"time"
 
 	"github.com/cosmos/cosmos-sdk/codec"
 	codectypes "github.com/cosmos/cosmos-sdk/codec/types"
@@ -179,7 +180,7 @@ var intertxOwners = []string{"a1", "a2", "a3", "a4", "A1", "A2", "A3"}
 func (a *App) ProjectIntertx(ctx sdk.Context) *IntertxState {
 	e := a.itx
 	s := &IntertxState{Chans: []map[string]any{}, Caps: []map[string]any{}, Sent: []map[string]any{}, Regs: []map[string]any{}}
-	s.Now, _ = TimeTick(ctx.BlockTime())
+	s.Now, _ = TimeTick(ctx.BlockTime().Truncate(time.Second)) // block times of this family carry a sub-second part
 	for _, conn := range []string{"connection-0", "connection-1", "connection-2"} {
 		for _, o := range intertxOwners {
 			port := portOf(o)
